@@ -623,6 +623,21 @@ impl From<Handle> for SerializableHandle {
     }
 }
 
+/// The node whose children are serialized as the children of `handle`: the children of a
+/// template element live in its template contents.
+fn children_parent(handle: &Handle) -> Handle {
+    if let NodeData::Element {
+        ref template_contents,
+        ..
+    } = handle.data
+    {
+        if let Some(contents) = template_contents.borrow().as_ref() {
+            return contents.clone();
+        }
+    }
+    handle.clone()
+}
+
 impl Serialize for SerializableHandle {
     fn serialize<S>(&self, serializer: &mut S, traversal_scope: TraversalScope) -> io::Result<()>
     where
@@ -632,7 +647,7 @@ impl Serialize for SerializableHandle {
         match traversal_scope {
             IncludeNode => ops.push_back(SerializeOp::Open(self.0.clone())),
             ChildrenOnly(_) => ops.extend(
-                self.0
+                children_parent(&self.0)
                     .children
                     .borrow()
                     .iter()
@@ -653,10 +668,12 @@ impl Serialize for SerializableHandle {
                             attrs.borrow().iter().map(|at| (&at.name, &at.value[..])),
                         )?;
 
-                        ops.reserve(1 + handle.children.borrow().len());
+                        let parent = children_parent(&handle);
+
+                        ops.reserve(1 + parent.children.borrow().len());
                         ops.push_front(SerializeOp::Close(name.clone()));
 
-                        for child in handle.children.borrow().iter().rev() {
+                        for child in parent.children.borrow().iter().rev() {
                             ops.push_front(SerializeOp::Open(child.clone()));
                         }
                     },
